@@ -31,6 +31,10 @@ ASSUMPTIONS = ["float64 arithmetic modelled as exact real arithmetic",
 ITEM_TIMEOUT = {"quick": 240, "thorough": 900}
 
 
+def VIEWS_LAYOUT_ITEMS(it, tier):
+    return True
+
+
 def items(tier):
     out = []
     for g in module_grid(tier):
